@@ -7,6 +7,7 @@ import (
 	"fmt"
 	"os"
 	"strings"
+	"time"
 
 	"github.com/xinchentechnote/fin-proto-go/zzverif/vrt"
 
@@ -26,7 +27,7 @@ type plan struct {
 func planFor(id string, thorough bool) *plan {
 	switch id {
 	case "C19":
-		p := &plan{scenarios: c19Scenarios(thorough), outcome: regOutcome, bounds: []int{-1, 2}, caps: []int64{30000, 300000}, shardBudget: 4000000}
+		p := &plan{scenarios: c19Scenarios(thorough), outcome: regOutcome, bounds: []int{-1, 2}, caps: []int64{30000, 300000}, shardBudget: 800000}
 		d := 3
 		if thorough {
 			d = 4
@@ -38,7 +39,7 @@ func planFor(id string, thorough bool) *plan {
 		}
 		if thorough {
 			p.bounds, p.caps = []int{-1, 3, 2}, []int64{200000, 3000000, 2000000}
-			p.shardBudget = 40000000
+			p.shardBudget = 8000000
 		}
 		return p
 	case "C20":
@@ -55,19 +56,30 @@ func runShard(id string, thorough bool, shard, n int) *shardResult {
 	if p.pre != nil {
 		p.pre(res, shard, n)
 	}
+	deadline := time.Now().Add(8 * time.Minute)
+	if thorough {
+		deadline = time.Now().Add(60 * time.Minute)
+	}
 	for idx, sc := range p.scenarios {
 		if idx%n != shard {
 			continue
 		}
-		if len(res.Violations) >= 5 {
-			break
+		if time.Now().After(deadline) {
+			// internal deadline (only reached on trees that are far more expensive to explore than the pinned one):
+			// stop, report what was covered, never an alarm by itself
+			res.Capped++
+			res.Extra["scenarios_not_explored_internal_deadline"]++
+			continue
+		}
+		if len(res.Violations) >= 5 || (len(res.Violations) >= 1 && p.shardBudget > 0 && res.Execs > p.shardBudget/4) {
+			break // counterexamples in hand and the tree is expensive to explore: stop this shard
 		}
 		res.Scenarios++
 		var st *exploreStats
 		if res.Execs > p.shardBudget && p.shardBudget > 0 {
 			// execution budget of this shard used up (only happens on changed trees whose code has far more scheduling
 			// points): the remaining scenarios are explored to preemption bound 1 with a small cap, reported as capped
-			st = explore(sc, 1, 3000, p.outcome)
+			st = explore(sc, 1, 300, p.outcome)
 			res.Execs += st.Execs
 			res.Steps += st.Steps
 			res.Extra["scenarios_explored_after_budget_exhausted"]++
